@@ -116,7 +116,13 @@ def family(name: str, tier: str):
                 yield ["struct", [a, ["farr", c, 2]]]
 
 
-FAMILIES_QUICK = [("prims", 1), ("arrays", 4), ("boundary", 4), ("depth1s", 8), ("depth1u", 8), ("depth2s", 48), ("depth2u", 32)]
+ALIAS_POOL = [
+    ["struct", []], ["struct", [["bool"]]], ["struct", [["uint", 8, "s"]]], ["struct", [["uint", 8, "s"], ["bool"]]], ["struct", [["bool"], ["uint", 8, "s"]]], ["struct", [["varr", ["uint", 16, "s"], 4]]],
+    ["struct", [["varr", ["union", [["uint", 8, "s"], ["uint", 56, "s"]]], 1]]], ["struct", [["varr", ["uint", 32, "s"], 2]]], ["struct", [["uint", 3, "s"], ["varr", ["bool"], 3]]],
+    ["union", [["bool"], ["uint", 8, "s"]]], ["union", [["uint", 8, "s"], ["bool"]]], ["union", [["uint", 8, "s"], ["uint", 56, "s"]]], ["union", [["uint", 8, "s"], ["uint", 24, "s"], ["uint", 56, "s"]]],
+    ["delim", ["struct", [["uint", 8, "s"]]], 32], ["delim", ["struct", [["uint", 8, "s"], ["uint", 16, "s"]]], 32], ["delim", ["struct", [["uint", 8, "s"]]], 64], ["delim", ["union", [["bool"], ["uint", 8, "s"]]], 32],
+]
+FAMILIES_QUICK = [("prims", 1), ("arrays", 4), ("boundary", 4), ("depth1s", 8), ("depth1u", 8), ("depth2s", 48), ("depth2u", 32), ("aliases", 1)]
 FAMILIES_THOROUGH = FAMILIES_QUICK + [("depth3", 64)]
 
 
@@ -129,6 +135,11 @@ def plan(tier):
 
 
 def cases(shard, tier):
+    if shard["family"] == "aliases":
+        # distinct types built under ONE name, one after the other in one process (layout must not be cached by name / approximate equality)
+        for a, b in itertools.permutations(range(len(ALIAS_POOL)), 2):
+            yield {"alias": [a, b]}
+        return
     text_every = {"depth1s": 16, "depth1u": 16, "depth2s": 400, "depth2u": 400, "depth3": 200, "arrays": 0, "prims": 0, "boundary": 0}[shard["family"]]
     for i, d in enumerate(family(shard["family"], tier)):
         if i % shard["parts"] == shard["part"]:
@@ -171,7 +182,39 @@ def root(desc):
     return desc[0] if desc[0] != "delim" else "delim-" + desc[1][0]
 
 
+def check_alias(case, R: engine.Acc):
+    for step, idx in enumerate(case["alias"] + case["alias"][:1]):
+        d = ALIAS_POOL[idx]
+        t = T.build_named(d, "Alias", (1, 0))
+        E, exp = expected_bls(d)
+        got = observe_bls(t.bit_length_set)
+        R.case([case["alias"], step], nontrivial=True, sample=False)
+        R.outcome("alias")
+        ok = got == exp and t.extent == L.extent(d) and set(t.bit_length_set) == set(E) and [str(f.data_type) for f in t.fields] == [T.normalized(f) for f in (d[1] if d[0] != "delim" else d[1][1])]
+        if not ok:
+            R.violation("layout-depends-on-history", "the layout of a type is its own, whatever other same-named types were built before in the process", {**case, "step": step}, observed={"bls": got, "extent": t.extent}, expected={"bls": exp, "extent": L.extent(d)})
+            return
+        # the same through the front end: each one read from its own scratch tree under the same file name
+        files = {}
+        inner = d[1] if d[0] == "delim" else d
+        lines = (["@union"] if inner[0] == "union" else []) + [("%s f%d" % (T.type_expr(f), i)) for i, f in enumerate(inner[1])] + ["@extent %d" % d[2] if d[0] == "delim" else "@sealed"]
+        for f in inner[1]:
+            T.to_files(f, files)
+        files["vns/Alias.1.0.dsdl"] = "\n".join(lines) + "\n"
+        o = api.read_namespace_tree(files, "vns")
+        if o.error is not None:
+            R.violation("text-path-rejected", "the type is constructible from DSDL text", {**case, "step": step}, observed=o.error)
+            return
+        tt = [x for x in o.types if x["full_name"] == "vns.Alias"][0]
+        want = dump.composite(t)
+        if tt != want:
+            R.violation("layout-depends-on-history", "the layout of a type read from text is its own, whatever same-named definitions were read before", {**case, "step": step}, observed=tt["bls"], expected=want["bls"])
+            return
+
+
 def check_case(case, R: engine.Acc):
+    if "alias" in case:
+        return check_alias(case, R)
     desc = case["desc"]
     R.case(desc, nontrivial=nontrivial(desc), sample=(desc[0] == "delim" and len(desc[1][1]) == 3))
     V = lambda fp, clause, obs, exp: R.violation(fp, clause, case, observed=obs, expected=exp)  # noqa: E731
@@ -271,7 +314,7 @@ def worker_init():
 
 
 def finish(tier, M):
-    need = ["farr", "varr", "struct", "union", "delim-struct", "delim-union"]
+    need = ["farr", "varr", "struct", "union", "delim-struct", "delim-union", "alias"]
     miss = [n for n in need if not M.hist.get(n)]
     if miss or not M.counters.get("text_builds") or not M.counters.get("expanded"):
         raise engine.Vacuous("families not visited: %s" % miss)
